@@ -186,7 +186,7 @@ contract(DEP + 'Initiator.send_dep_req_recv_dep_res', 'C04',
          # a conforming Target answers a chained information PDU with an ACK and everything else with information
          requires=['(self._g_last.pfb.fmt == 4) == (req.pfb.fmt == 1)', 'req.pfb.fmt != 5 and req.pfb.fmt != 8'],
          ensures=[('O-recover.result', 'result is self._g_last')],
-         raises={'nfc.clf:TimeoutError': []},
+         raises={'nfc.clf:TimeoutError': []}, native=False,
          loops={(TQ, 'While', 0): LoopSpec(invariant=['True'], havoc={'timeout': Any()})})
 
 # second instance: the first frame of a step is LOST (timeout).  The Initiator asks for attention, the Target
@@ -213,4 +213,4 @@ contract(DEP + 'Initiator.send_dep_req_recv_dep_res', 'C04',
          requires=['req.pfb.fmt != 5 and req.pfb.fmt != 8'],
          ensures=[('O-recover.result', 'result is self._g_last')],
          raises={'nfc.clf:TimeoutError': []},
-         max_unroll=6)
+         max_unroll=6, native=False)
